@@ -20,9 +20,10 @@ THOROUGH_SCALE = 2.0
 SRCS = {
     'small': 'x = f(a, b)  # cx\n\n# lead y\ny = [1, 2,  # two\n     3]\nif x:  # h\n    z = x + y  # cz\nelse:\n    z = -x\nprint(z)  # end\n',
     'defs': '@dec\ndef g(p, q=1):  # sig\n    """doc"""\n    r = p * q  # m\n    return r\n\n\nclass K(B):\n    v = g(1)  # cv\n    w: int = 2\n',
+    'ifelse2': 'if a:  # h\n    b = 1  # cb\n    c = 2\nelse:\n    d = 3  # cd\n    e = 4\nfor i in z:\n    f = 5\n    g = 6\nelse:\n    h = 7\n    j = 8\nk = 9\n',
     'flow': 'for i in range(3):  # loop\n    if i:\n        continue  # c\n    t = (i,\n         i + 1)\nwhile t: t = t[1:]  # shrink\nwith a as b, c:\n    pass  # body\n',
 }
-OPS = ['none', 'expr_new', 'expr_foreign', 'stmt_delete', 'stmt_insert_new', 'stmt_swap_next', 'stmt_duplicate', 'rename', 'const_change', 'op_change', 'stmt_move_to_end',
+OPS = ['none', 'cross_fields_after', 'cross_fields_into_body', 'expr_new', 'expr_foreign', 'stmt_delete', 'stmt_insert_new', 'stmt_swap_next', 'stmt_duplicate', 'rename', 'const_change', 'op_change', 'stmt_move_to_end',
        'expr_swap_sibling']
 OTHER = 'o = other(1) + thing\n'
 
@@ -106,6 +107,20 @@ def _apply(tree, op, k, other_tree):
     if not (0 <= k < len(st)):
         return None
     n = st[k]
+    if op in ('cross_fields_after', 'cross_fields_into_body'):
+        # statements of DIFFERENT list fields of one block statement put next to each other: P.body[j], P.orelse[j + 1]
+        if not (isinstance(n, (ast.If, ast.For, ast.While)) and len(n.body) >= 1 and len(n.orelse) >= 2):
+            return None
+        pp, pname, pidx = _where(tree, n)
+        if pp is None or pidx is None:
+            return None
+        pair = [n.body[0], n.orelse[1]]
+        if op == 'cross_fields_after':
+            lst_ = getattr(pp, pname)
+            lst_[pidx + 1:pidx + 1] = pair           # the same objects now also follow the block (duplication is allowed)
+        else:
+            n.body[:] = pair
+        return {id(top_of(n) or n)} | {id(s_) for s_ in tree.body}
     p, name, idx = _where(tree, n)
     if p is None or idx is None:
         return None
